@@ -42,6 +42,9 @@ class Engine:
         I.overrides["vf.contracts.rt.ghost"] = _rt_ghost
         I.overrides["vf.contracts.rt.require"] = _rt_require
         I.overrides["vf.contracts.rt.flat"] = _rt_flat
+        I.overrides["vf.contracts.rt.ghost_get"] = _rt_ghost_get
+        I.overrides["vf.contracts.rt.make_file"] = _rt_make_file
+        I.overrides["vf.contracts.rt.logged"] = _rt_logged
         I.overrides["vf.contracts.rt.fresh_int"] = _rt_fresh_int
         return I
 
@@ -93,6 +96,22 @@ def _rt_flat(I, args, kwargs, st):
         if isinstance(x, tuple):
             raise Unsupported("flat(): the log contains a seek")
     return [("val", rope_norm(Rope(items)), st)]
+
+
+def _rt_ghost_get(I, args, kwargs, st):
+    if args[0] not in st.ghost:
+        raise Unsupported(f"ghost_get({args[0]!r}) before ghost()")
+    return [("val", st.ghost[args[0]], st)]
+
+
+def _rt_make_file(I, args, kwargs, st):
+    from .models import new_file
+    return [("val", new_file(I, st, args[1] if len(args) > 1 else kwargs.get("mode", "r"), args[0]), st)]
+
+
+def _rt_logged(I, args, kwargs, st):
+    level, text = args
+    return [("val", any(e[0] == "log" and e[1] == level and e[2] == text for e in st.events), st)]
 
 
 def _rt_ghost(I, args, kwargs, st):
